@@ -149,7 +149,7 @@ func (x *pathCtx) lower(t *Term, k types.BasicKind) value {
 
 func isSym(v value) bool {
 	switch v.(type) {
-	case sym, symStr:
+	case sym, symStr, numStr:
 		return true
 	}
 	return false
@@ -244,6 +244,27 @@ func (x *pathCtx) strLess(a, b value, orEq bool) value {
 
 func (x *pathCtx) symBinop(op token.Token, t types.Type, a, b value) value {
 	tt := x.tt
+	// decimal spellings
+	if na, ok := a.(numStr); ok {
+		if c, ok := b.(string); ok && (op == token.EQL || op == token.NEQ) {
+			r := x.numStrEq(na, c)
+			if op == token.NEQ {
+				return x.not(r)
+			}
+			return r
+		}
+		panic(unsupported("operation on a decimal spelling: " + op.String()))
+	}
+	if nb, ok := b.(numStr); ok {
+		if c, ok := a.(string); ok && (op == token.EQL || op == token.NEQ) {
+			r := x.numStrEq(nb, c)
+			if op == token.NEQ {
+				return x.not(r)
+			}
+			return r
+		}
+		panic(unsupported("operation on a decimal spelling: " + op.String()))
+	}
 	// strings
 	_, as := a.(symStr)
 	_, bs := b.(symStr)
